@@ -216,6 +216,7 @@ def leaf_by_name(leaves, name):
 
 
 FLOATBAD = ["not a number"]      # rotated by the caller: wrong type, then finite values beyond the format's range
+BYTESBAD = [b"toolongvalue"]     # rotated by the caller: wrong length, then values of other types (tuple, list, float, str)
 
 
 def bad_value_for(leaf):
@@ -228,7 +229,7 @@ def bad_value_for(leaf):
             return FLOATBAD[0]
         return 1 << 80 if n != "VarInt" else -5
     if k in ("Bytes",):
-        return b"toolongvalue"
+        return BYTESBAD[0]
     if k in ("CString", "PascalString", "PaddedString"):
         return b"bytes-not-str" if leaf[0] != "PaddedString" else "much too long for the field"
     if k == "Enum":
@@ -366,6 +367,7 @@ def run_shape(ctx, rng, r):
             continue
     # ---- building: every named leaf made unbuildable in turn
     FLOATBAD[0] = ["not a number", 1e300, -3.5e38, 70000.0][ctx.evaluations % 4]
+    BYTESBAD[0] = [b"toolongvalue", (1, 2), (), [1, 2, 3], 2.5, "text", {"a": 1}][(ctx.evaluations // 4) % 7]
     for chain, leaf, bad in [(c, l, bad_value_for(l)) for c, l in leaves] + [(c, l, "\u20ac not ascii") for c, l in leaves if l[0] in ("CString", "PaddedString") and l[-1] == "ascii"]:
         if bad is None:
             continue
@@ -433,6 +435,47 @@ def dedupe_members(active):
     return out
 
 
+def lazy_truncations(ctx):
+    """LazyStruct reads only what it must (the length / count fields of length-prefixed members): a truncation that cuts such a
+    field is reported inside that member, under the names of the enclosing members"""
+    import construct as C
+    rec = C.LazyStruct("a" / C.Byte, "p" / C.Prefixed(C.Int16ub, C.GreedyBytes), "q" / C.PrefixedArray(C.Byte, C.Int16ub), "t" / C.Byte)
+    plain = C.Struct("a" / C.Byte, "p" / C.Prefixed(C.Int16ub, C.GreedyBytes), "q" / C.PrefixedArray(C.Byte, C.Int16ub), "t" / C.Byte)
+    for wrap, names, mkd, head in (("top", [], lambda r: r, b""), ("nested", ["hdr", "rec"], lambda r: C.Struct("hdr" / C.Struct("k" / C.Byte, "rec" / r), "z" / C.Byte), b"\x4b"),
+                                   ("array", ["recs"], lambda r: C.Struct("recs" / C.Array(2, r)), b"")):
+        d = mkd(rec)
+        for plen in (0, 3):
+            for qn in (0, 2):
+                one = plain.build(dict(a=1, p=b"x" * plen, q=[7] * qn, t=9))
+                enc = head + one * (2 if wrap == "array" else 1) + (b"\x05" if wrap == "nested" else b"")
+                # offsets (within the first record) of the fields the lazy parse has to read: p's length (2 bytes at 1), q's count (1 byte)
+                base = len(head)
+                # (PrefixedArray is a FocusedSeq of the members "count" and "items": its own member names belong to the chain)
+                # named members are measured through their name wrapper, which has no size for a length-prefixed member: they are parsed in full
+                need = [(base + 1, base + 3 + plen, ["p"]), (base + 3 + plen, base + 4 + plen, ["q", "count"]), (base + 4 + plen, base + 4 + plen + 2 * qn, ["q", "items"])]
+                for t in range(len(head), len(enc)):
+                    want = None
+                    for lo, hi, nm in need:
+                        if t < hi:
+                            want = names + nm
+                            break
+                    if want is None:
+                        continue
+                    ctx.ev()
+                    case = {"op": "lazy-truncation", "wrap": wrap, "encoding": tag(enc), "cut": t}
+                    try:
+                        d.parse(enc[:t])
+                        ctx.count("truncation_accepted")
+                        continue
+                    except C.ConstructError as e:
+                        check_path(ctx, e, "(parsing)", want, "parse", case, "lazy record truncated at %d of %d (inside the length/count field of %s)" % (t, len(enc), want[-1]))
+                    except Exception:
+                        ctx.count("truncation_foreign_exception")
+                        continue
+                    ctx.nontrivial("lazy-trunc", wrap, plen, qn, t)
+    ctx.count("lazy_truncation_families")
+
+
 def _unsized_forms():
     """members whose size cannot be determined: inherently, or because a parameter refers to a context entry that is absent
     while sizing - spelled as this.key, as a callable using attribute access and as a callable using item access"""
@@ -498,6 +541,8 @@ def first_unsized_chain(r, prefix=()):
 def run(ctx):
     rng = ctx.rng
     monitors.MEMBERS.install()
+    if ctx.index == 0:
+        lazy_truncations(ctx)
     n = ctx.pick(4000, 60000) // ctx.nworkers
     for i in range(n):
         g = ShapeGen(rng, rng.choice([2, 3, 3, 4]))
@@ -509,6 +554,8 @@ def run(ctx):
 
 
 def replay(ctx, case):
+    if case.get("op") == "lazy-truncation":
+        return lazy_truncations(ctx)
     import random
     monitors.MEMBERS.install()
     run_shape(ctx, random.Random(0), case["recipe"])
